@@ -1,4 +1,5 @@
 import PlushModel
+import PlushProofs.Lib.EvalKeepsFeeder
 /-!
   C13 — rendering is a deterministic function of template and data; templates are immutable.
   The model's `renderIn` IS a function of (source, store, heap), so the content here is: (1) the places
@@ -164,5 +165,18 @@ theorem C13_cache_history {T : Type} (parse : Bytes → Option T) (enabled : Boo
   | cons i rest ih =>
     intro cache h input
     exact ih _ (C13_cache parse enabled cache i h).2 input
+
+/-! ### Evaluator-wide: template sources are immutable (proof in `PlushProofs/Lib/EvalKeepsFeeder.lean`) -/
+
+/-- EVALUATION NEVER MODIFIES THE TEMPLATE SOURCES IT RENDERS FROM: the partial feeder (the model's stand-in for
+    the templates a render can reach) is the same after any evaluator function as before it — on success, on
+    error, on a fatal outcome; for every program, data and fuel. (The parsed program itself is an immutable
+    value in the model; that the Go evaluator does not write to AST nodes is the generated fact
+    `Gen.astWriteSites`, re-translated from /repo on every run.) -/
+theorem C13_sources_immutable (fuel : Nat) : AllKF fuel := allKF fuel
+
+/-- instance: a whole render -/
+theorem C13_render_keeps_sources (fuel : Nat) (src : Bytes) (ctx : Nat) (s : ES) :
+    (renderIn fuel src ctx s).2.feeder = s.feeder := ((allKF fuel).renderIn src ctx).same s
 
 end Plush
